@@ -105,7 +105,13 @@ def main(tier, seed):
         meta_text = open(os.path.join(C.VERIF, "corpus", path)).read()
         if "#@ simulate: yes" in meta_text:
             items.append({"id": "simcorpus-" + path[:-5], "text": meta_text, "T": None})
-    jobs = [{"kind": "simulate", "id": it["id"], "text": it["text"], "N": N, "want": ["parsed"], "max_runs": 3000,
+    # deterministic programs can be followed much longer (one path): large values, float comparisons
+    DET = [("doubling_eq", "x = 1\ny = 0\nf = 0\nwhile true:\n    x = 2*x\n    y = x + 1\n    if x == y:\n        f = 1\n    end\nend\n", 45),
+           ("guard_neq", "a = 1\nb = 3\nwhile !(a == b):\n    a = 4*a\n    b = 4*b - 8\nend\n", 20),
+           ("halving", "x = 1024\nc = 0\nwhile x > 1/1024:\n    x = x/2\n    c = c + 1\nend\n", 30)]
+    for name, text, n_det in DET:
+        items.append({"id": "simdet-" + name, "text": text, "T": None, "N": n_det})
+    jobs = [{"kind": "simulate", "id": it["id"], "text": it["text"], "N": it.get("N", N), "want": ["parsed"], "max_runs": 3000,
              "timeout": 240} for it in items]
     results = pool.run_jobs(jobs, per_job_timeout=240)
     by_D, meta = {}, {}
@@ -122,7 +128,7 @@ def main(tier, seed):
             continue
         P = gen.instantiate(it["T"], {}) if it["T"] is not None else absyn.prog(res["parsed"][0])
         try:
-            D, enc = encode_sim_trace(it["id"], P, N, res["runs"], res["complete"])
+            D, enc = encode_sim_trace(it["id"], P, it.get("N", N), res["runs"], res["complete"])
         except (E.NotDadic, KeyError) as ex:
             run.error(f"{it['id']}: cannot encode runs: {ex}")
             continue
@@ -170,6 +176,10 @@ def main(tier, seed):
         replay_jobs.append({"kind": "simulate", "id": "replay-" + it["id"], "text": it["text"], "N": N,
                             "scripts_sparse": [[e["i"] - 1 for h in b["hist"] for e in h["ch"]] for b in bs], "timeout": 200})
         expect["replay-" + it["id"]] = (it, P, bs)
+    # the same behaviours again, all in ONE call of simulate (several samples per call)
+    for j in list(replay_jobs):
+        replay_jobs.append(dict(j, id=j["id"] + "-onecall", one_call=True))
+        expect[j["id"] + "-onecall"] = expect[j["id"]]
     rres = pool.run_jobs(replay_jobs, per_job_timeout=200) if replay_jobs else {}
     replayed = replay_bad = 0
     for jid, (it, P, bs) in expect.items():
@@ -178,6 +188,22 @@ def main(tier, seed):
             run.error(f"{jid}: replay job failed {res.get('stage')}")
             continue
         D = E.choose_D(list(E.Encoder(P["vars"]).numbers_prog(P)))
+        if jid.endswith("-onecall"):
+            if len(res["runs"]) != len(bs) or any("exc" in rn for rn in res["runs"]):
+                replay_bad += 1
+                run.violation({it["id"]}, {"program": it["text"], "clause": "replay in one simulate call: simulator raised / lost samples",
+                                           "runs": res["runs"][:2]})
+                continue
+            for b, rn in zip(bs, res["runs"]):
+                replayed += 1
+                spec_states = [[str(E.dec_r(x["a"], D)) for x in h["s"]] for h in b["hist"]]
+                sim_states = [[str(F(st[v])) for v in P["vars"]] for st in rn["states"]]
+                if spec_states != sim_states:
+                    replay_bad += 1
+                    run.violation({it["id"]}, {"program": it["text"], "clause": "replay in one simulate call: stores differ",
+                                               "spec": spec_states, "simulator": sim_states})
+                    break
+            continue
         for b, rn in zip(bs, res["runs"]):
             replayed += 1
             if "exc" in rn:
